@@ -162,6 +162,8 @@ def run(db, rep, tier):
                                "on the same wire bits", 60)
     rep.rule("R4-serialiser-stores", "serialising assigns only the tabled derived fields (lengths, checksums, next-protocol tags ...): "
                                      "every other field keeps the value that was set", 25)
+    rep.rule("R6-address-order", "IPv4/IPv6/hardware address setters store the octets in the order the address object holds them (network "
+                                 "order): no byte swap between the address and the header", 10)
     small_uint(db, rep)
     pairs = discover(db)
     if len(pairs) < 300:
@@ -318,9 +320,45 @@ def run(db, rep, tier):
         else:
             rep.ok("R3-footprint", key, site, "writes %d bit(s) inside {%s}; %d other getters unaffected" %
                    (len(changed), ",".join(sorted(ch_members)) or "-", n_cmp))
+        # ---- R6 address byte order: an address object holds its octets in wire order; the header must hold them in that order too
+        if kind == "address":
+            ref = [("p", i) for i in range(w)]
+            pt_ = facts.tyi(s, s["params"][0].get("t")) or {}
+            while pt_.get("k") == "ref" and pt_.get("to"):
+                pt_ = pt_["to"]
+            if pt_.get("name") == "Tins::IPv4Address":
+                # IPv4Address keeps a host-order integer; its network-order image is what operator uint32_t() yields
+                conv = [f_ for fid_, f_ in db.functions.items() if fid_.startswith("Tins::IPv4Address::operator unsigned int(") and f_.get("body")]
+                ref = None
+                if conv:
+                    try:
+                        m3 = bp.Machine(db)
+                        r3 = m3.new_region("P", "p")
+                        v3 = m3.call(conv[0], bp.Loc(r3, 0, pt_), [])
+                        ref = list(v3.bits) if isinstance(v3, bp.BV) else None
+                    except (bp.Unsupported, bp.Throw):
+                        ref = None
+                if ref is None:
+                    rep.analysis_broken("%s: network-order image of IPv4Address not computable" % key)
+            if ref is not None:
+                starts = sorted(b for b, v in post.items() if isinstance(b, int) and v == ref[0])
+                if starts:
+                    stats["address-order checked"] += 1
+                    base = starts[0]
+                    wrong = [i for i in range(len(ref)) if post.get(base + i) != ref[i]]
+                    if wrong:
+                        i = wrong[0]
+                        rep.violation("R6-address-order", key, site,
+                                      "octet %d of the stored field is not octet %d of the address's network-order image (stored bit: %s): the "
+                                      "setter applies a byte swap of its own, so the serialization carries the address with its octets reordered"
+                                      % (i // 8, i // 8, bp.bit_str(post.get(base + i, 0))))
+                    else:
+                        rep.ok("R6-address-order", key, site, "the %d octets are stored as the address's network-order image" % (len(ref) // 8))
     serialiser_stores(db, rep)
     endian_arms(db, rep)
     rep.extra["pairs"] = dict(stats)
+    if stats.get("address-order checked", 0) < 10:
+        rep.analysis_broken("only %d address-typed setters found for R6" % stats.get("address-order checked", 0))
     rep.extra["pairs_total"] = len(pairs)
     rep.explanation = ("E-BITS composes each scalar setter with its getter in a bit-provenance domain (masks, shifts, byte swaps, casts, "
                        "bit-field layout and copies are exact) and decides, for every value and every prior object state: the getter "
